@@ -249,6 +249,10 @@ func (g *vfGen) node(depth int) Node {
 		used[name] = true
 		n.Attrs = append(n.Attrs, xml.Attr{Name: xml.Name{Local: name}, Value: g.text(true)})
 	}
+	if g.r.Intn(5) == 0 {
+		// the one namespace-qualified attribute that needs no declaration (and that unknown payloads do carry)
+		n.Attrs = append(n.Attrs, xml.Attr{Name: xml.Name{Space: "http://www.w3.org/XML/1998/namespace", Local: "lang"}, Value: []string{"en", "fr-CA", "x-vf"}[g.r.Intn(3)]})
+	}
 	if depth < 4 {
 		k := g.r.Intn(4)
 		if depth > 1 && g.r.Intn(2) == 0 {
